@@ -84,9 +84,11 @@ func (s *State) evalIndexAssigment(which ast.Node, index, value object.Object) o
 			return s.NewError("index assignment out of bounds: " + index.Inspect())
 		}
 		elements := object.Elements(val)
-		if object.Constant(id.Literal()) {
+		if object.Constant(id.Literal()) || object.IsContainer(value) {
 			// Large arrays are written in place: work on a copy so that the constant check in Set
 			// compares the old value with the new one (and refuses) instead of seeing the change already made.
+			// Same when the new element is itself an array or a map: written in place it could end up inside
+			// its own storage (x[0] = x, or y = [x]; x[0] = y) and printing or comparing such a value never ends.
 			elements = append(object.MakeObjectSlice(len(elements)), elements...)
 		}
 		elements[idx] = value
@@ -97,7 +99,7 @@ func (s *State) evalIndexAssigment(which ast.Node, index, value object.Object) o
 		return value
 	case object.MAP:
 		m := val.(object.Map)
-		if object.Constant(id.Literal()) {
+		if object.Constant(id.Literal()) || object.IsContainer(value) || object.IsContainer(index) {
 			m = m.Append(object.NewMap()) // a copy: big maps are changed in place, see the array case.
 		}
 		m = m.Set(index, value)
